@@ -23,7 +23,7 @@ ARITH = 'machine arithmetic is checked, not assumed mathematical (Kani overflow/
 A1 = 'A1 std semantics: Vec::extend(iter.map(f)), Vec::retain, Vec::contains, slice iteration act element-wise and in order (lifts "one representative per seam call" / "lists of length <= 3" to lists of any length)'
 A2 = 'A2 induction principle: the reachable-state invariant (legal_board, wf_status, step <= 3, hash bookkeeping) is precondition and postcondition of every transition obligation; Init + Step => all reachable states is the one meta-level step'
 A3 = 'A3 no 64-bit Zobrist collision between two distinct (board, side) pairs compared by the repetition rules (needed only to read hash-level statements at position level)'
-A7 = 'A7 cross-tool assume/guarantee: Kani obligations see map_bit_board_to_squares / piece_board_value as stubs or ghost values whose contracts are discharged by Verus units (and vice versa for bits_for_piece / piece_value); the identity of the two renderings of each contract sentence is by inspection'
+A7 = 'A7 cross-tool assume/guarantee: Kani obligations see map_bit_board_to_squares / piece_board_value as stubs or ghost values whose contracts are discharged by Verus units; inside the Verus units pbv/fpb the seam is a contracted external (its contract is discharged by the unit seam) and squares_of is introduced by a definitional axiom; bits_for_piece, bits_by_piece_type, piece_value, Square::index and the constant tables are NOT trusted there (their real text is extracted and verified); the identity of the two renderings of each contract sentence is by inspection'
 KANI = 'Kani harness-contracts (assume pre / call the real fn / assert post) and in-place Kani function contracts on the woven real crate, fully symbolic 64-bit boards, CBMC bit-blasting; callers composed against callee contracts via stubs'
 
 P('C01',
